@@ -184,12 +184,12 @@ Lemma last_repeat_true n : last (true :: repeat true n) true = true.
 Proof. induction n as [|n IH]; [reflexivity|]. cbn [repeat]. cbn [last] in *. exact IH. Qed.
 
 Lemma find_row_differences_eq M rows :
-  0 <= M -> Forall (fun r => length r = Z.to_nat M) rows -> (rows <> [] \/ M = 0) ->
+  0 <= M -> Forall (fun r => length r = Z.to_nat M) rows ->
   frd_cy M rows = frd_py M rows.
 Proof.
-  intros HM Hrows Hne. unfold frd_cy, frd_py.
+  intros HM Hrows. unfold frd_cy, frd_py.
   destruct (M =? 0) eqn:E0; [reflexivity|].
-  destruct rows as [|r t]; [destruct Hne as [Hne|Hne]; [contradiction|lia]|].
+  destruct rows as [|r t]; [reflexivity|].
   inversion Hrows as [|? ? Hr1 Hr2]; subst.
   cbn [length repeat].
   change (assign_inner (true :: true :: repeat true (length t)) (changes r t))
@@ -201,10 +201,10 @@ Proof.
   cbn [nonzero_from]. cbn [Z.add]. f_equal. f_equal. lia.
 Qed.
 
-(* the docstring's formula: [0] + [i for i in 1..L-1 if rows differ] + [L]; on an empty array with
-   columns the two implementations DIFFER (py returns [0], cy [0, 0]) *)
-Lemma find_row_differences_empty_differs : exists M rows, 0 <= M /\ frd_cy M rows <> frd_py M rows.
-Proof. exists 1, []. split; [lia|]. vm_compute. discriminate. Qed.
+(* on an empty array with columns both implementations return [0] (not the [0, 0] of the docstring's formula
+   [0] + [i for i in 1..L-1 if rows differ] + [L]) *)
+Lemma find_row_differences_empty : frd_cy 1 [] = [0] /\ frd_py 1 [] = [0].
+Proof. vm_compute. split; reflexivity. Qed.
 
 (* ---- _make_stride *)
 Lemma prod_max_pos l : 1 <= prodZ (map (Z.max 1) l).
